@@ -55,7 +55,7 @@ def cr(r, f):
 
 def render_call(t, c, r):
     k = c[0]
-    if k == 'query':
+    if k in ('query', 'query1'):
         return f'(CQuery {Q[c[1]]} {carg(t, c[2])} {cbool(c[3])}, RKeys {cr(r, lambda l: clist([t.s(x) for x in l]))})'
     if k == 'pred':
         return f'(CPred {Q[c[1]]} {carg(t, c[2])} {carg(t, c[3])}, RBool {cr(r, cbool)})'
